@@ -151,7 +151,7 @@ def run(spec: dict, judge, *, passes: int, nontrivial, want_out_read: bool = Tru
                 k["layer"] = layer
                 k["n_gaps"] = str(len(kept))
                 if gaps_desc:
-                    k["gaps"] = gaps_desc[:3]
+                    k["gaps"] = gaps_desc[:6]
                 res["witnesses"].append({
                     "key": k,
                     "case": {"id": cid, "text": final_text, "original": text if final_text != text else None,
